@@ -156,4 +156,15 @@ theorem source_trigger_times :
        ("_trigger_event_before_step_for_market", "market.get_time()"),
        ("_trigger_event_after_step_for_market", "market.get_time()")] := by decide
 
+/-- (T) hook sites of the request loop in the current sources: the before-hook is the first thing
+that happens to a request, the market call follows it directly, the after-hook comes after the
+owner's notification, and the after-execution hook is dispatched once per fill inside the loop -/
+theorem source_hook_sites :
+    ∀ x ∈ PamsGen.requestPaths,
+      x.2.2.2.take 2 = (if x.2.1 then ["_trigger_event_before_cancel", "_cancel_order"]
+                        else ["_trigger_event_before_order", "_add_order"]) ∧
+      (x.2.2.2.drop 2).take 3 = (if x.2.1 then ["agent:order.agent_id", "canceled_order", "_trigger_event_after_cancel"]
+                                 else ["agent:agent_id", "submitted_order", "_trigger_event_after_order"]) ∧
+      (x.2.2.1 = true → x.2.2.2.drop (x.2.2.2.length - 2) = ["_trigger_event_after_execution", "]"]) := by decide
+
 end Pams.C13
